@@ -23,4 +23,16 @@ pub trait DirectLDLSolver<T: FloatT>: DirectLDLSolverReqs<T> + HasLinearSolverIn
     fn offset_values(&mut self, index: &[usize], offset: T, signs: &[i8]);
     fn solve(&mut self, kkt: &CscMatrix<T>, x: &mut [T], b: &[T]);
     fn refactor(&mut self, kkt: &CscMatrix<T>) -> bool;
+    #[cfg(clarabel_verif)]
+    fn verif_internal_copy(&self) -> Option<(Vec<T>, Vec<usize>)> {
+        None
+    }
 }
+
+// crate-internal names used by the verification hooks
+#[cfg(clarabel_verif)]
+pub(crate) use datamaps::{
+    LDLDataMap as VerifLDLDataMap, SparseExpansionMap as VerifSparseExpansionMap,
+};
+#[cfg(clarabel_verif)]
+pub(crate) use kkt_assembly::assemble_kkt_matrix as verif_assemble;
